@@ -259,10 +259,11 @@ def plan(run):
     os.makedirs(os.path.dirname(BASEFILE), exist_ok=True)
     os.environ["VERIF_C14_BASE"] = BASEFILE
     seeds = [0, 1, (run.seed % 1000) + 2]
-    with ThreadPoolExecutor(6) as ex:
-        futs = [(s, half, ex.submit(fresh_results, half, s)) for s in seeds for half in (HP.POOL_NAMES[:5], HP.POOL_NAMES[5:10], HP.POOL_NAMES[10:])]
+    with ThreadPoolExecutor(run.workers) as ex:
+        # one genuinely fresh interpreter per (document, hash seed): no document shares a process with another
+        futs = [(s, name, ex.submit(fresh_results, [name], s)) for s in seeds for name in HP.POOL_NAMES]
         per_seed = {}
-        for s, half, f in futs:
+        for s, name, f in futs:
             per_seed.setdefault(s, {}).update(f.result())
     base = per_seed[seeds[0]]
     for s in seeds[1:]:
